@@ -21,13 +21,13 @@ def interpTrace : Trace → ZoneMap → RM (PState × ZoneMap)
     | .ok z' => interpTrace rest z'
     | .error err => .error err
 
-/-- the `for` loop of `_generate_line` as a trace; `k stopped r` is what follows the loop -/
-def genTrace (ttl ty : Nat) : List (List Nat × List Nat) → PState → (Bool → PState → Trace) → Trace
-  | [], r, k => k false r
+/-- the `for` loop of `_generate_line` as a trace; `k r` is what follows the loop -/
+def genTrace (ttl ty : Nat) : List (List Nat × List Nat) → PState → (PState → Trace) → Trace
+  | [], r, k => k r
   | item :: rest, r, k =>
     match genItem ttl ty item r with
     | .error e => .err e
-    | .ok (none, r') => k true r'
+    | .ok (none, r') => genTrace ttl ty rest r' k
     | .ok (some e, r') => .entry r'.effOrigin e (genTrace ttl ty rest r' k)
 
 /-- the records a text denotes, by running the parser alone -/
@@ -43,16 +43,11 @@ def parseTrace : Nat → PState → Trace
       match generateParse r' with
       | .error e => .err e
       | .ok (h, r'') =>
-        genTrace h.ttl h.rdtype h.items r'' fun stopped r3 =>
-          if stopped then
-            match eatLine (r3.tok.input.length + 2) r3.tok with
-            | .ok s => parseTrace f { r3 with tok := s }
-            | .error e => .err e
-          else parseTrace f r3
+        genTrace h.ttl h.rdtype h.items r'' fun r3 => parseTrace f r3
 
 theorem generateLoop_trace (ttl ty : Nat) (items : List (List Nat × List Nat)) (r : PState) (z : ZoneMap)
-    (k : Bool → PState → Trace) (K : Bool × PState × ZoneMap → RM (PState × ZoneMap))
-    (hK : ∀ b r' z', K (b, r', z') = interpTrace (k b r') z') :
+    (k : PState → Trace) (K : PState × ZoneMap → RM (PState × ZoneMap))
+    (hK : ∀ r' z', K (r', z') = interpTrace (k r') z') :
     (generateLoop ttl ty items r z >>= K) = interpTrace (genTrace ttl ty items r k) z := by
   induction items generalizing r z with
   | nil => simp [generateLoop, genTrace, pure, Except.pure, bind, Except.bind, hK]
@@ -63,7 +58,10 @@ theorem generateLoop_trace (ttl ty : Nat) (items : List (List Nat × List Nat)) 
     | ok v =>
       obtain ⟨e, r1⟩ := v
       cases e with
-      | none => simp [pure, Except.pure, hK]
+      | none =>
+        have := ih r1 z
+        simp only [bind, Except.bind] at this
+        exact this
       | some e =>
         simp only [interpTrace]
         cases ha : addEntry z r1.effOrigin e with
@@ -109,39 +107,12 @@ theorem readLoop_eq_interp (fuel : Nat) (r : PState) (z : ZoneMap) :
         | ok w =>
           obtain ⟨h, r2⟩ := w
           simp only
-          have := generateLoop_trace h.ttl h.rdtype h.items r2 z
-            (fun stopped r3 =>
-              if stopped then
-                match eatLine (r3.tok.input.length + 2) r3.tok with
-                | .ok s => parseTrace f { r3 with tok := s }
-                | .error e => .err e
-              else parseTrace f r3)
-            (fun x =>
-              (if x.1 = true then
-                  (match eatLine (x.2.1.tok.input.length + 2) x.2.1.tok with
-                    | .error e => (.error e : RM (PState × ZoneMap))
-                    | .ok s => .ok ({ x.2.1 with tok := s }, x.2.2))
-                else .ok (x.2.1, x.2.2)) >>= fun y => readLoop f y.1 y.2)
-            (by
-              intro b r' z'
-              cases b
-              · simp [bind, Except.bind, ih]
-              · simp only [if_true, bind, Except.bind]
-                cases he : eatLine (r'.tok.input.length + 2) r'.tok with
-                | error e => simp [interpTrace]
-                | ok s => simp [ih])
+          have := generateLoop_trace h.ttl h.rdtype h.items r2 z (fun r3 => parseTrace f r3)
+            (fun x => readLoop f x.1 x.2) (by intro r' z'; simp [ih])
           rw [← this]
           simp only [bind, Except.bind, pure, Except.pure]
           cases hgl : generateLoop h.ttl h.rdtype h.items r2 z with
           | error e => rfl
-          | ok x =>
-            obtain ⟨stopped, r3, z3⟩ := x
-            simp only
-            cases stopped
-            · simp
-            · simp only [if_true]
-              cases he : eatLine (r3.tok.input.length + 2) r3.tok with
-              | error e => rfl
-              | ok s => rfl
+          | ok x => rfl
 
 end Model
